@@ -30,8 +30,8 @@ Definition mk_params (mind expd maxdep vp evp q th eth veto mir mdr cr : Z) (cd 
      bad_active_dequeued_by_key := sh_bad_active_dequeued_by_key gen_shape |}.
 Definition mk_cp (r p q : Z) : cparams := {| c_ratio := r; c_period := p; c_quorum := q |}.
 Definition mk_msg (t : Z) (sp : coins) (a : action) : msg := {| m_type := t; m_spend := sp; m_act := a |}.
-Definition mk_stk (v d : list (Z * Z * Z)) (tb : Z) : staking :=
-  {| st_vals := v; st_dels := d; st_total_bonded := tb |}.
+Definition mk_stk (v d : list (Z * Z * Z)) (tb now : Z) : staking :=
+  {| st_vals := v; st_dels := d; st_total_bonded := tb; st_time := now |}.
 Definition mk_pobs (id st : Z) (e : bool) (tot : Z) (deps : list (Z * Z)) (vend : Z) (t : list Z) : pobs :=
   {| po_id := id; po_status := st; po_exp := e; po_total := tot; po_deps := deps; po_vend := vend; po_tally := t |}.
 Definition mk_obs (r : Z) (ps : list pobs) (g : Z) (b : list (Z * Z)) (ia ac fxs : list Z) : obs :=
